@@ -22,6 +22,7 @@ DOC = {
  "C08.R5": "ActorPortSet::drop calls close() and a draining try_recv() loop on every receiver-typed field of the struct",
  "C08.R6": "thread-local spawner: the start task travels only inside the abort-on-drop wrapper (reply element type, wrap-before-send); the wrapper is alive across the caller's await and disarmed only after it; its Drop aborts when armed",
  "C08.R8": "= C11.R1 + C11.R2: `it is in no process group` -- group/monitor insertions re-check the status under the actor's relations lock, and the exit drains the reverse index under that lock after publishing the status",
+ "C08.R9": "cancellation after start-up: the loop task is created by the caller's own future (Send), or, when another task creates it (thread-local), it first awaits an acknowledgement channel whose sender is a local of the caller's future",
  "C08.R7": "= C01.R3 + C04.R7: no loop task unless pre_start returned Ok; mark_running only after pre_start Ok (no event for a failed start)",
 }
 
@@ -190,6 +191,49 @@ def r7(run, db):
     c04.r7(run, db)
 
 
+def r9(run, db):
+    """`the spawning future is dropped at any await point` for a runtime whose loop task is spawned by *another* task than the
+    caller's future.  In the Send runtime the loop task is created in the same poll in which start() returns Ready, so a caller
+    either never got that far or holds the result.  In the thread-local runtime the loop task is created by the start task on
+    the spawner's thread; the caller learns of it by awaiting that task's JoinHandle.  Between the start task's last poll and
+    the caller's next poll the actor is already running while nothing the caller owns can stop it: the abort-on-drop wrapper
+    (R6) aborts a task that has already finished.  Closing the gap needs an acknowledgement from the caller to the loop task
+    (the loop task first awaits a channel whose sender is a local of the caller's future)."""
+    m = model(db)
+    for rt in m.runtimes():
+        sb = m.start_body(rt)
+        blk = m.spawn_block(rt)
+        cs = creation_sites(db, blk)
+        run.anchor("%s loop task creation" % rt, len(cs), 1, blk.where())
+        if not cs:
+            continue
+        # walk outwards from the body that creates the loop task to the async fn's own coroutine: if a plain closure lies on
+        # the way (a deferred constructor such as the thread-local `builder`, which is boxed and sent to the spawner thread
+        # and called there), the loop task is not created by the caller's future
+        chain = enclosing_chain(db, cs[0][0])
+        deferred = [b for b, _ in chain if b.kind == "closure"]
+        same_poll = not deferred
+        if same_poll:
+            run.ok("%s|loop-task-created-by-caller" % rt, "the loop task of runtime %s is created by the caller's own future (%s): dropping that future earlier means no task, later means the caller holds the result" % (rt, sb.id.split("::")[-3]), blk.where())
+            continue
+        # remote creation: look for the claim handshake
+        loop_calls = [c for c in blk.calls() if c.callee == db.root_of(m.loop_body(rt)).id or c.resolved == db.root_of(m.loop_body(rt)).id]
+        claim = []
+        for a in awaits(blk):
+            ty = blk.local_ty(op_place(a.poll.args[0])[0]) if op_place(a.poll.args[0]) else ""
+            roots = blk.origins(a.poll.args[0], through=lambda cc: 0 if cc.matches(r"Pin::<Ptr>::new_unchecked$|IntoFuture::into_future$|Pin::<Ptr>::new$") else None)
+            is_rx = any("oneshot" in (blk.local_ty(r["local"]) if r.get("local") is not None else "") or (r["k"] == "upvar" and "oneshot" in (place_ty(db, blk, [1, ["f:%d" % r["field"]]]) or "")) for r in roots) or "oneshot" in ty
+            if is_rx and loop_calls and all(a.completes_before(c.site) for c in loop_calls):
+                claim.append(a)
+        # the bodies outside the deferred constructor are the caller's future
+        idx = max(i for i, (b, _) in enumerate(chain) if b.kind == "closure")
+        sender_in_caller = [c for b, _ in chain[idx + 1:] for c in b.calls() if c.matches(r"concurrency::(\w+::)?oneshot$|sync::oneshot::channel$")]
+        run.check(bool(claim) and bool(sender_in_caller), "%s|loop-task-claimed-by-caller" % rt,
+                  "the remotely created loop task first awaits an acknowledgement whose sender lives in the caller's future",
+                  "runtime %s: the loop task is created by %s, not by the caller's future, and starts running callbacks without any acknowledgement from the caller: a spawn future dropped after the start task's last poll and before its own next poll leaves a running, registered, linked actor behind that the caller never received" % (
+                      rt, "a deferred constructor (%s) run by another task" % deferred[0].id.split("::")[-2:]), blk.where())
+
+
 Q = ["dflt", "rc"]
 TH = ["dflt", "rc", "atr", "astd", "mon"]
-RULES = [{"id": "C08.R%d" % i, "fn": f, "quick": Q, "thorough": TH} for i, f in enumerate([r1, r2, r3, r4, r5, r6, r7, r8], 1)]
+RULES = [{"id": "C08.R%d" % i, "fn": f, "quick": Q, "thorough": TH} for i, f in enumerate([r1, r2, r3, r4, r5, r6, r7, r8, r9], 1)]
